@@ -227,6 +227,32 @@ def section(rng):
         out += bytes([(0x80 if i == len(blocks) - 1 else 0) | k]) + be(3, len(body)) + body
     return out
 
+def single_instance_cases():
+    """deterministic: the once-per-file rules (PNG icon = picture type 1, general icon = type 2, VORBIS_COMMENT, SEEKTABLE),
+    every ordered pair and some triples of the picture types 1, 2, 3 and duplicated kinds 3 / 4; returns
+    (sections for the reader, literal lists for the writer)"""
+    import random, itertools
+    rng = random.Random(11)
+    si = ser_streaminfo(rng)
+    def pic(t):
+        mime = b'image/png'
+        return be(4, t) + be(4, len(mime)) + mime + be(4, 0) + be(4, 32) + be(4, 32) + be(4, 24) + be(4, 0) + be(4, 2) + b'ab'
+    def sec(blocks):
+        out = b'fLaC' + bytes([0]) + be(3, 34) + si
+        for i, (k, body) in enumerate(blocks):
+            out += bytes([(0x80 if i == len(blocks) - 1 else 0) | k]) + be(3, len(body)) + body
+        return out
+    combos = [list(c) for c in itertools.product([1, 2, 3], repeat=2)] + [[2, 1, 2], [1, 2, 1], [2, 1, 1], [2, 3, 1, 3], [1, 3, 2, 3, 2]]
+    secs = [('pictures-' + '-'.join(map(str, c)), sec([(6, pic(t)) for t in c])) for c in combos]
+    vc = struct.pack('<I', 1) + b'v' + struct.pack('<I', 0)
+    st = be(8, 0) + be(8, 0) + be(2, 16)
+    secs += [('two-vorbis', sec([(4, vc), (4, vc)])), ('two-seektables', sec([(3, st), (3, st)])),
+             ('vorbis-picture-vorbis', sec([(4, vc), (6, pic(2)), (4, vc)]))]
+    lits = []
+    for c in combos:
+        lits.append('S:4096:4096:0:0:44100:2:16:0:none' + ';' + ';'.join(f'I:{t}:{hx(b"image/png")}:-:32:32:24:0:6162' for t in c))
+    return secs, lits
+
 def inflated_sections():
     """deterministic: every declared count / length inside a block body set far beyond the bytes present
     (below 2^32-1 so that a reader that trusts the count dies of the allocation oracle, not of the process)"""
